@@ -2,6 +2,7 @@
 
 use super::common::*;
 use crate::api::proguard as cur;
+use crate::api::AlignedBuf;
 use crate::engine::{guarded, Check, Ctx, Fail, Report, Stats};
 use crate::gen::mapping::GenCfg;
 use crate::gen::universe::Universe;
@@ -157,6 +158,28 @@ pub fn check_faults(bytes: &[u8], u: &Universe, key: u64, case_hash: u64, st: &m
         }
         if got != want {
             return Err(Fail::new("prefix-error-kind", format!("the {p}-byte prefix of a {full_len}-byte cache: parse says {got:?}, the layout implies {want:?}")).with(json!({"prefix": p, "header": format!("{header:?}")})));
+        }
+    }
+    // ---- the same prefixes at an address that is 4 (not 8) mod 8: such a buffer satisfies the header's alignment but
+    // not the sections'; whatever parse makes of it, a torn file must not be accepted and half-read
+    {
+        let mut shifted = AlignedBuf::new(&vec![0u8; full_len + 8]);
+        shifted.bytes_mut()[4..4 + full_len].copy_from_slice(buf.bytes());
+        let full = parse_cache(&buf)?;
+        let step = (full_len / 600).max(1);
+        for p in (0..=full_len).rev().step_by(step).chain(full_len.saturating_sub(12)..=full_len) {
+            st.evaluations += 1;
+            let slice = &shifted.bytes()[4..4 + p];
+            let got = guarded(|| proguard::ProguardCache::parse(slice).map(cur::C).map_err(|e| e.kind())).map_err(|e| Fail::new("parse-panic", format!("parse panicked on the {p}-byte prefix at a 4-aligned address: {e}")))?;
+            if let Ok(pre) = got {
+                let mut scratch = Stats::new();
+                no_panic("query on a buffer accepted at a 4-aligned address", || compare_retracers(&full, &pre, u, &extra, Kinds::decoding(), case_hash, &mut scratch)).map_err(|f| {
+                    Fail::new("misaligned-accepted-differs", format!("the {p}-byte prefix of a {full_len}-byte cache placed at an address = 4 mod 8 is accepted but answers differently from the file: {}", f.msg)).with(json!({"prefix": p, "offset": 4}))
+                })?;
+                st.class("buffer at a 4-aligned address accepted and equivalent to the file");
+            } else {
+                st.class("buffer at a 4-aligned address rejected");
+            }
         }
     }
     // ---- every single-field edit of the header
